@@ -73,18 +73,18 @@ def run(ctx):
         return replay(ctx, bins)
     mn = ctx.n(20, 400)
     # (polar decomposition of float is only judged for stretch ratios <= ~6, others are skipped and counted)
-    ctx.run_events(bins[("c02a", "asan")], ctx.n(28800, 2592000), timeout=3000,
+    ctx.run_events(bins[("c02a", "asan")], ctx.n(28800, 1728000), timeout=3000,
                    require=req(TENSOR_APIS, ("double", "float", "ldouble"), mn))
-    ctx.run_events(bins[("c02b", "asan")], ctx.n(14400, 960000), timeout=3000,
+    ctx.run_events(bins[("c02b", "asan")], ctx.n(14400, 576000), timeout=3000,
                    require=req(["st2tost2::" + a for a in ST2TOST2_APIS], ("double", "float"), mn) +
                    req(["st2tost2::" + a for a in ST2TOST2_APIS_23], ("double", "float"), mn, (2, 3)))
-    ctx.run_events(bins[("c02c", "asan")], ctx.n(7200, 480000), timeout=3000,
+    ctx.run_events(bins[("c02c", "asan")], ctx.n(7200, 288000), timeout=3000,
                    require=req(MIXED_APIS, ("double", "float"), mn))
     if ctx.thorough:
         # what users run: -O2 -DNDEBUG
-        ctx.run_events(bins[("c02a", "O2")], 2592000, timeout=3000, require=[])
-        ctx.run_events(bins[("c02b", "O2")], 960000, timeout=3000, require=[])
-        ctx.run_events(bins[("c02c", "O2")], 480000, timeout=3000, require=[])
+        ctx.run_events(bins[("c02a", "O2")], 1728000, timeout=3000, require=[])
+        ctx.run_events(bins[("c02b", "O2")], 576000, timeout=3000, require=[])
+        ctx.run_events(bins[("c02c", "O2")], 288000, timeout=3000, require=[])
     ctx.assumptions += [
         "change_basis(x,r) means r^T.x.r for second-order tensors (docs/web/tensors.md, same convention as C01) and "
         "C'_ijkl = r_mi r_nj r_pk r_ql C_mnpq for the fourth-order ones; fromRotationMatrix(r) is the map x -> r^T.x.r",
